@@ -324,6 +324,17 @@ func (c *Client) sendRecv(tm message, rm message) error {
 	err := send(c.log, c.conn, tag(t), tm)
 	c.sendMu.Unlock()
 	if err != nil {
+		// Nobody will answer a request that was not sent. Forget the
+		// tag and take back what a failing receiver may have handed
+		// us in the meantime: the response goes back to the pool
+		// referenced by no pending map and with an empty channel.
+		c.pendingMu.Lock()
+		delete(c.pending, tag(t))
+		c.pendingMu.Unlock()
+		select {
+		case <-resp.done:
+		default:
+		}
 		return fmt.Errorf("send: %w", err)
 	}
 
